@@ -1401,10 +1401,13 @@ static void run_case(uint64_t idx)
 {
     if (hang_seen) { VRT_COUNT("hang.cases-skipped-after-a-hang"); return; }
     case_running = 1;
+    /* none of these containers ever needs memory: every second case runs with an allocator that refuses everything */
+    if (idx & 1) { vrt_fp_arm(NULL, 0, 1); VRT_COUNT("nomem.cases"); }
     if (idx < (uint64_t)nscopes) run_closure((int)idx);
     else if (idx < (uint64_t)(nscopes + ndeep())) run_deep(idx - nscopes);
     else if (mode == MODE_CLEAR) run_random_clear(idx - nscopes - ndeep());
     else run_random(idx - nscopes - ndeep());
+    vrt_fp_disarm();
     case_running = 0;
 }
 static void winit(void)
